@@ -617,5 +617,6 @@ func C06(c *core.Ctx) {
 	c.Set("matching_cases", st.Cases)
 	c.Set("exhaustive", c.Thorough())
 	mSample(c, ms, cases)
-	c.Set("rule", "programs of MCMatching with at least one notation: every :skip (exact, lower-cased, /^P\\./ prefix and /(^|\\.)X$/ suffix regexps, both case modes), :map (fields, getter chains, promoted and embedded members, through pointers, unresolvable, ill-typed), :map $n (source operand, arguments, out of range), :conv (14 functions incl. pointer argument, error result, wrong arity, non-function, missing, imported) and :literal on top-level and nested targets, plus interaction pairs (skip vs explicit on the same path / on the parent, two explicit notations on one path, notation below a copyable struct); the projected outcome of every plan path must be in the permitted set. Distinct = distinct programs")
+	convRefFamily(c)
+	c.Set("rule", "ConvRef.tla: all 192 placements/shapes of a :conv target generated in the same run (same / earlier / later interface x file order x style x receiver x error x pointer operands); programs of MCMatching with at least one notation: every :skip (exact, lower-cased, /^P\\./ prefix and /(^|\\.)X$/ suffix regexps, both case modes), :map (fields, getter chains, promoted and embedded members, through pointers, unresolvable, ill-typed), :map $n (source operand, arguments, out of range), :conv (14 functions incl. pointer argument, error result, wrong arity, non-function, missing, imported) and :literal on top-level and nested targets, plus interaction pairs (skip vs explicit on the same path / on the parent, two explicit notations on one path, notation below a copyable struct); the projected outcome of every plan path must be in the permitted set. Distinct = distinct programs")
 }
